@@ -7,6 +7,7 @@ import Driver.ConfigIO
 import Driver.BerIO
 import Driver.CdrDumpIO
 import Driver.PeerIO
+import Driver.RecBerIO
 /-
   Line-protocol driver: one operation per input line, one canonical line per operation.
   The first token selects the stream (model); stateful streams keep their state in `DState`.
@@ -31,6 +32,8 @@ def step (s : DState) (line : String) : DState × String :=
   | "c03" :: t => (s, c03Op ("c03" :: t))
   | "config" :: t => (s, configOp t)
   | "diam" :: t => (s, diamOp t)
+  | "recbytes" :: t => (s, recberOp t)
+  | "recguard" :: t => (s, recguardOp t)
   | "abmfjudge" :: t => (s, abmfJudge t)
   | "rfjudge" :: t => (s, rfJudge t)
   | _ => (s, "bad-op")
